@@ -9,6 +9,7 @@ import (
 	"errors"
 	"fmt"
 	"io"
+	"slices"
 	"sort"
 	"strings"
 	"sync"
@@ -82,6 +83,9 @@ const (
 	ESameValue = NumErrKinds + 10
 	// EIOEOF: the callback fails with io.EOF itself / an error wrapping io.EOF (a well-known sentinel a library might be tempted to use internally)
 	EIOEOF = NumErrKinds + 11
+	// EEmptyBatchErr: the callback fails with the library's own aggregate error type holding no entries (an aggregate
+	// returned unconditionally), as is or wrapped: a non-nil error like any other
+	EEmptyBatchErr = NumErrKinds + 12
 )
 
 // PermErr is a permanent-looking error.
@@ -107,7 +111,7 @@ type MultiErr []error
 func (m MultiErr) Error() string { return fmt.Sprintf("%d errors", len(m)) }
 
 // AllErrKinds lists every error kind a callback can be scripted to fail with (ECtxAware excluded: it depends on the context).
-var AllErrKinds = []int{ESentinel, EWrapped, ECustom, ECtxLike, EUncomparable, EJoined, ENestedRun, ETemporary, ETypedNil, ENilSliceErr, ENotTemporary, EChained, ESameValue, EIOEOF}
+var AllErrKinds = []int{ESentinel, EWrapped, ECustom, ECtxLike, EUncomparable, EJoined, ENestedRun, ETemporary, ETypedNil, ENilSliceErr, ENotTemporary, EChained, ESameValue, EIOEOF, EEmptyBatchErr}
 
 // UncompErr is an error whose dynamic type is not comparable.
 type UncompErr struct {
@@ -285,6 +289,7 @@ type Exec struct {
 	sharedBase  map[int]*flyt.BaseNode
 	seenCtx     []context.Context
 	ctxFlagged  bool
+	trailFlagged bool
 	getterCalls atomic.Int64
 	dwelling    atomic.Int32 // 1 while the cancel-dwell callback is still inside its dwell
 	curKind     string       // injection kind in force in the current run
@@ -409,6 +414,20 @@ func (x *Exec) enter() (ordinal int) {
 	return
 }
 
+// TrailKey is a second key the post callbacks keep identical to "log" (an underscore-prefixed, "private looking"
+// name): nobody but the callbacks writes the store, so a post that finds the two different has seen the library
+// change the contents of the store between two callbacks.
+const TrailKey = "_trail"
+
+func (x *Exec) checkTrail(node int, shared *flyt.SharedStore, log []string) {
+	tv, _ := shared.Get(TrailKey)
+	t, _ := tv.([]string)
+	if !slices.Equal(t, log) && !x.trailFlagged {
+		x.trailFlagged = true
+		x.record(Event{Node: node, Phase: "anomaly", Note: fmt.Sprintf("store: key %q holds %v, the callbacks left %v there (only callbacks write this store): the contents changed between two callbacks", TrailKey, t, log)})
+	}
+}
+
 // midConnect performs the Connect calls scheduled for this callback.
 func (x *Exec) midConnect(node, visit int, phase string) {
 	for _, mc := range x.Sc.MidConnect {
@@ -445,6 +464,12 @@ func (x *Exec) mkErr(kind int, id string) error {
 		ret = io.EOF
 		if len(id)%2 == 0 {
 			ret = fmt.Errorf("reading %s: %w", id, io.EOF)
+		}
+	case EEmptyBatchErr:
+		sentinel = &flyt.BatchError{}
+		ret = sentinel
+		if len(id)%2 == 1 {
+			ret = fmt.Errorf("aggregate of %s: %w", id, sentinel)
 		}
 	case ENotTemporary:
 		sentinel = &PermErr{ID: id}
@@ -679,8 +704,10 @@ func (c *core) post(ctx context.Context, shared *flyt.SharedStore, prepRes, exec
 	if shared != nil {
 		lg, _ := shared.Get("log")
 		l, _ := lg.([]string)
+		c.x.checkTrail(c.id, shared, l)
 		l = append(append([]string(nil), l...), fmt.Sprint(c.id))
 		shared.Set("log", l)
+		shared.Set(TrailKey, l)
 	}
 	if len(c.x.Sc.MidConnect) > 0 {
 		c.x.midConnect(c.id, v, "post")
@@ -723,8 +750,10 @@ func (c *core) batchPost(ctx context.Context, shared *flyt.SharedStore, items, r
 	if shared != nil {
 		lg, _ := shared.Get("log")
 		l, _ := lg.([]string)
+		c.x.checkTrail(c.id, shared, l)
 		l = append(append([]string(nil), l...), fmt.Sprint(c.id))
 		shared.Set("log", l)
+		shared.Set(TrailKey, l)
 	}
 	if len(c.x.Sc.MidConnect) > 0 {
 		c.x.midConnect(c.id, vis, "post")
@@ -801,6 +830,26 @@ func (n *embedBldNode) Exec(ctx context.Context, p any) (any, error) { return n.
 func (n *embedBldNode) Post(ctx context.Context, s *flyt.SharedStore, p, e any) (flyt.Action, error) {
 	return n.c.post(ctx, s, p, e)
 }
+
+// embedBldFBNode additionally brings its own ExecFallback method.
+type embedBldFBNode struct{ embedBldNode }
+
+func (n *embedBldFBNode) ExecFallback(p any, err error) (any, error) { return n.c.fallback(p, err) }
+
+// embedCustomFBNode embeds the *CustomNode itself and overrides all four phases.
+type embedCustomFBNode struct {
+	*flyt.CustomNode
+	c *core
+}
+
+func (n *embedCustomFBNode) Prep(ctx context.Context, s *flyt.SharedStore) (any, error) {
+	return n.c.prep(ctx, s)
+}
+func (n *embedCustomFBNode) Exec(ctx context.Context, p any) (any, error) { return n.c.exec(ctx, p) }
+func (n *embedCustomFBNode) Post(ctx context.Context, s *flyt.SharedStore, p, e any) (flyt.Action, error) {
+	return n.c.post(ctx, s, p, e)
+}
+func (n *embedCustomFBNode) ExecFallback(p any, err error) (any, error) { return n.c.fallback(p, err) }
 
 // embedFlowNode is a node type built around an embedded *flyt.Flow (a gate / adapter around a sub-flow) that brings
 // its own three phases: the embedded flow is not run unless the node's Exec decides to.
@@ -967,10 +1016,17 @@ func (x *Exec) build(id int) flyt.Node {
 				stray("post")
 				return "inner-post-action", nil
 			})
-		if spec.HasFB {
+		switch {
+		case spec.HasFB && (id+spec.N)%3 == 1: // the fallback is a method of the embedding type (the builder has none configured)
+			n = &embedBldFBNode{embedBldNode{NodeBuilder: b, c: c}}
+		case spec.HasFB && (id+spec.N)%3 == 2: // the same around the builder's *CustomNode
+			n = &embedCustomFBNode{CustomNode: b.CustomNode, c: c}
+		case spec.HasFB:
 			b = b.WithExecFallbackFunc(c.fallback)
+			n = &embedBldNode{NodeBuilder: b, c: c}
+		default:
+			n = &embedBldNode{NodeBuilder: b, c: c}
 		}
-		n = &embedBldNode{NodeBuilder: b, c: c}
 	case KEmbedFlow:
 		strayNode := flyt.NewNode().WithExecFuncAny(func(ctx context.Context, p any) (any, error) {
 			c.x.record(Event{Node: id, Visit: c.visit - 1, Phase: "anomaly", Note: "the embedded flow's own node ran although the embedding node overrides Exec and never starts it"})
@@ -1102,7 +1158,7 @@ func (x *Exec) RunOnce() (out Outcome) {
 	x.events = nil
 	x.seq = 0
 	x.mu.Unlock()
-	x.seenCtx, x.ctxFlagged = nil, false
+	x.seenCtx, x.ctxFlagged, x.trailFlagged = nil, false, false
 	x.cancelSeq = -1
 	var ctx context.Context = context.Background()
 	var stop func() = func() {}
